@@ -19,3 +19,19 @@ package core
 //@ pure
 //@ ensures r1 == nil <==> res(1, d.SignedData.Clone()) == nil
 //@ ensures r1 == nil ==> r0.ShareIdx == d.ShareIdx && r0.SignedData == res(0, d.SignedData.Clone())
+
+//@ func (s SignedDataSet) Clone
+//@ props C09 C18
+//@ pure
+//@ ensures r1 == nil ==> forallk(k, s, has(r0, k) && res(1, s[k].Clone()) == nil && r0[k] == res(0, s[k].Clone()))
+//@ ensures r1 == nil ==> forallk(k, r0, has(s, k))
+//@ loop 1 invariant forall(t, 0, $i, has(resp, $ks[t]) && res(1, s[$ks[t]].Clone()) == nil && resp[$ks[t]] == res(0, s[$ks[t]].Clone()))
+//@ loop 1 invariant forallk(k, resp, exists(t, 0, $i, $ks[t] == k))
+
+//@ func (s ParSignedDataSet) Clone
+//@ props C07 C18
+//@ pure
+//@ ensures r1 == nil ==> forallk(k, s, has(r0, k) && res(1, s[k].Clone()) == nil && r0[k] == res(0, s[k].Clone()))
+//@ ensures r1 == nil ==> forallk(k, r0, has(s, k))
+//@ loop 1 invariant forall(t, 0, $i, has(resp, $ks[t]) && res(1, s[$ks[t]].Clone()) == nil && resp[$ks[t]] == res(0, s[$ks[t]].Clone()))
+//@ loop 1 invariant forallk(k, resp, exists(t, 0, $i, $ks[t] == k))
